@@ -4,7 +4,7 @@ from __future__ import annotations
 import ast
 
 from engine.defuse import value_sources
-from engine.flow import dominating_guards, must_pass, reachable_from_entry, returns_of
+from engine.flow import expand_aliases, dominating_guards, must_pass, reachable_from_entry, returns_of
 from .common import CALLS, MUTATING_METHODS, open_mode
 
 META = {
@@ -146,8 +146,14 @@ def check(ctx):
                 ok = len(a) == 2 and rooted_at_param(ct, a[0], {bparam}, s) and any(k == "iter" for k, _ in value_sources(ct, a[1], s))
                 ctx.ob("recursion.argument-order", ct, v, ok, "recurses with (base value, included value)" if ok else
                        "the recursive merge swaps or replaces its arguments: nested included values lose", node=s)
-                both = [t for t, tr in dominating_guards(an, ct, s) if tr and isinstance(t.ast, ast.Call) and ast.unparse(t.ast.func) == "isinstance"
-                        and "dict" in ast.unparse(t.ast.args[1])]
+                both = []
+                for t, tr in dominating_guards(an, ct, s):
+                    if not tr:
+                        continue
+                    e = expand_aliases(ct, t.ast, t)      # `both_nested = isinstance(a, dict) and isinstance(b, dict)`
+                    conj = e.values if isinstance(e, ast.BoolOp) and isinstance(e.op, ast.And) else [e]
+                    both += [c for c in conj if isinstance(c, ast.Call) and ast.unparse(c.func) == "isinstance" and len(c.args) == 2
+                             and "dict" in ast.unparse(c.args[1])]
                 ctx.ob("recursion.only-for-two-maps", ct, v, len(both) >= 2, "recursion only when both sides are maps" if len(both) >= 2 else
                        "recursion is not restricted to map/map conflicts", node=s)
             else:
